@@ -159,6 +159,7 @@ def dstep (s : DState) (toks0 : List String) : DState × List String :=
       fin s (step s.v s.w (.conn h ws nb x))
     | none => (s, ["bad-op"])
   | ["pump"] => fin s (step s.v s.w (.pump xs rs))
+  | ["draw", _] => fin s (step s.v s.w (.pump xs rs))
   | ["ext"] => fin s (step s.v s.w .ext)
   | ["shutdown"] => fin s (step s.v s.w .shutdown)
   | ["cleanup"] => fin s (step s.v s.w .cleanup)
